@@ -76,6 +76,40 @@ fn node_stage(case: &Case, ctx: &mut Ctx, js: (String, String)) -> Verdict {
     }
 }
 
+/// Both stages, plus a domain guard for the first one: swc's TSX parser accepts a few malformed
+/// inputs silently (seen: `<fo/>//\n/'abc` - an unterminated string after a JSX element - is
+/// accepted, and so is its re-print), which then "do not re-parse" once the transform has moved
+/// the pieces. If node's parser rejects the input with its JSX flattened, the input was not a
+/// module in the first place.
+pub fn full_check(case: &Case, ctx: &mut Ctx) -> Verdict {
+    let (v, js) = judge_inner(case, &ctx.findings, true);
+    match (v, js) {
+        (Verdict::Pass, Some(js)) => node_stage(case, ctx, js),
+        (Verdict::Violation { kind, detail }, _) if kind == "output-does-not-reparse" => {
+            let lang = Lang::from_str(&case.lang);
+            let js = with_transform(&case.source, lang, case.options.as_deref(), |t| t.js_for_syntax_check())
+                .ok()
+                .flatten();
+            if let Some((inp, _)) = js {
+                let req = json!({"mode": "syntax", "modules": [{"name": "in", "code": inp}]});
+                match ctx.node().and_then(|n| n.request(req)) {
+                    Ok(reply) => {
+                        if reply["results"]["in"]["ok"].as_bool() == Some(false) {
+                            return Verdict::Discard("input-rejected-by-second-parser".into());
+                        }
+                    }
+                    Err(e) => {
+                        ctx.node = None;
+                        return Verdict::Infra(e);
+                    }
+                }
+            }
+            Verdict::Violation { kind, detail }
+        }
+        (v, _) => v,
+    }
+}
+
 fn judge_inner(case: &Case, findings: &crate::runner::Findings, want_js: bool) -> (Verdict, Option<(String, String)>) {
     let lang = Lang::from_str(&case.lang);
     let mut js = None;
@@ -182,11 +216,7 @@ impl Property for C07 {
         gen_case(c, false)
     }
     fn check(&self, case: &Case, ctx: &mut Ctx) -> Verdict {
-        let (v, js) = judge_inner(case, &ctx.findings, true);
-        match (v, js) {
-            (Verdict::Pass, Some(js)) => node_stage(case, ctx, js),
-            (v, _) => v,
-        }
+        full_check(case, ctx)
     }
     fn uses_node(&self) -> bool {
         true
